@@ -1,5 +1,5 @@
 (** * C16 -- histograms: 2^n cells, exact shot total, no shots on impossible outcomes *)
-From QV Require Import Reg ScalarR C16T C16T2.
+From QV Require Import Reg ScalarR C16T C16T2 C16T3.
 
 Theorem C16_histogram : C16_histogram_stmt.
 Proof. exact C16_histogram_proof. Qed.
@@ -12,3 +12,7 @@ Print Assumptions C16_terminates.
 Theorem C16_correction : C16_correction_stmt.
 Proof. exact C16_correction_proof. Qed.
 Print Assumptions C16_correction.
+
+Theorem C16_legacy : C16_legacy_stmt.
+Proof. exact C16_legacy_proof. Qed.
+Print Assumptions C16_legacy.
